@@ -424,6 +424,245 @@ def run_spec_choice(inp):
     return {"req": None, "impl": None, "kind": "spec-choice", "oracle": None, "sig": "spec-choice", "nontrivial": False}
 
 
+# ------------------------------------------------------------------------------------------------ weak-e2e (extension xk12)
+# What a noise-free weak run RETURNS (Props/C12.lean `shot_distribution`, `weak_counts`): the REAL `simulator.run` in weak mode
+# with every `np.random.default_rng()` replaced by a recording generator that walks forced branches, the process pool of
+# `measure_shots` replaced by an in-process one (trusted base: concurrent.futures), `MPS.measure_shots` /
+# `MPS.measure_single_shot` wrapped (they run unchanged; the wrappers record the chain handed over and the key returned).
+E2E = {"n": 0, "bad": 0, "worst": 0.0, "detail": "", "fid_n": 0, "fid_bad": 0, "fid_worst": 0.0, "fid_detail": ""}
+E2E_ZERO = 1e-12
+
+
+def _weak_e2e_child(conn, spec, L, shots, codes, basis_state):
+    try:
+        import concurrent.futures as cf
+        import os
+        import sys
+        import warnings as w
+
+        w.simplefilter("ignore")
+        os.environ["YAQS_MAX_WORKERS"] = "1"
+        sys.stderr = open(os.devnull, "w")  # tqdm bar of measure_shots
+        from mqt.yaqs import simulator
+        from mqt.yaqs.core.data_structures import networks as nw
+        from mqt.yaqs.core.data_structures.simulation_parameters import WeakSimParams
+
+        rec = {"gens": [], "ms_calls": [], "keys": []}
+        real_default_rng = np.random.default_rng
+        fallback = real_default_rng(12345)
+
+        class Gen:
+            """recording generator: shot j follows the forced code `codes[j]` wherever the forced outcome is possible"""
+
+            def __init__(self):
+                self.ps, self.bits, self.idx = [], [], None
+
+            def choice(self, a, p=None, **kw):  # noqa: ARG002
+                p = np.array(p, dtype=float)
+                if self.idx is None:
+                    self.idx = len(rec["gens"])
+                    rec["gens"].append(self)
+                want = (codes[self.idx % len(codes)] >> len(self.ps)) & 1
+                c = want if p[want] > E2E_ZERO else 1 - want
+                self.ps.append([float(p[0]), float(p[1])])
+                self.bits.append(int(c))
+                return c
+
+            def __getattr__(self, name):
+                return getattr(fallback, name)
+
+        class SyncPool:
+            def __init__(self, *a, **k):
+                pass
+
+            def __enter__(self):
+                return self
+
+            def __exit__(self, *a):
+                return False
+
+            def submit(self, fn, *a, **k):
+                fut = cf.Future()
+                try:
+                    fut.set_result(fn(*a, **k))
+                except BaseException as e:  # noqa: BLE001
+                    fut.set_exception(e)
+                return fut
+
+        orig_ms, orig_ss = nw.MPS.measure_shots, nw.MPS.measure_single_shot
+
+        def spy_ms(self, shots, basis="Z"):
+            rec["ms_calls"].append({"shots": int(shots), "basis": str(basis), "tensors": [np.array(t) for t in self.tensors]})
+            return orig_ms(self, shots, basis)
+
+        def spy_ss(self, basis="Z", rng=None):
+            r = orig_ss(self, basis, rng)
+            rec["keys"].append(int(r))
+            return r
+
+        np.random.default_rng = lambda *a, **k: Gen()
+        cf.ProcessPoolExecutor = SyncPool
+        nw.MPS.measure_shots, nw.MPS.measure_single_shot = spy_ms, spy_ss
+        qc = build_circuit(spec, L)
+        sp = WeakSimParams(shots=shots, show_progress=False)
+        state = MPS(L, state="basis", basis_string=basis_state) if basis_state else MPS(L, state="zeros")
+        simulator.run(state, qc, sp, None, parallel=False)
+        conn.send({"results": [(int(k), int(v)) for k, v in sp.results.items()],
+                   "shots_after": int(sp.shots),
+                   "gens": [{"ps": g.ps, "bits": g.bits} for g in rec["gens"]],
+                   "keys": rec["keys"],
+                   "ms_calls": [{"shots": c["shots"], "basis": c["basis"]} for c in rec["ms_calls"]],
+                   "tensors": [t for t in rec["ms_calls"][0]["tensors"]] if rec["ms_calls"] else None})
+    except BaseException as e:  # noqa: BLE001
+        conn.send({"error": f"{type(e).__name__}: {e}"})
+    finally:
+        conn.close()
+
+
+def run_weak_e2e(inp):
+    from collections import Counter
+
+    from qiskit.quantum_info import Statevector
+
+    L, spec, shots = inp["L"], inp["circuit"], inp["shots"]
+    init = inp.get("basis_state")
+    codes = inp.get("codes") or list(range(2**L))
+    ctx = mp.get_context("fork")
+    a, b = ctx.Pipe(duplex=False)
+    pr = ctx.Process(target=_weak_e2e_child, args=(b, spec, L, shots, codes, init), daemon=False)
+    pr.start()
+    b.close()
+    res = a.recv() if a.poll(90) else None
+    if res is None:
+        pr.kill()
+        pr.join()
+        return {"req": None, "impl": None, "kind": "weak-e2e", "sig": f"weak-e2e-timeout:{L}:{shots}",
+                "oracle": {"ok": False, "detail": f"noise-free weak simulator.run did not finish within 90 s: {inp}"}}
+    pr.join(10)
+    if pr.is_alive():
+        pr.kill()
+    if "error" in res:
+        return {"req": None, "impl": None, "kind": "weak-e2e", "sig": f"weak-e2e-raised:{L}:{shots}",
+                "oracle": {"ok": False, "detail": f"noise-free weak run raised {res['error']} on {inp}"}}
+    # reference: qiskit Statevector of the same circuit; its strings are little-endian (rightmost character = qubit 0), so
+    # int(string, 2) = sum_i q_i 2^i, the key convention claimed by `shot_distribution`
+    qc = build_circuit([g for g in spec if g[0] != "measure_all"], L)
+    sv = (Statevector.from_label(init[::-1]) if init else Statevector.from_label("0" * L)).evolve(qc)
+    pd = {int(k, 2): float(v) for k, v in sv.probabilities_dict().items()}
+    pv = [pd.get(k, 0.0) for k in range(2**L)]
+    if any(E2E_ZERO / 10 < q < 1e-9 for q in pv):
+        return {"req": None, "impl": None, "kind": "weak-e2e", "edge": True, "oracle": None, "sig": f"weak-e2e-edge:{L}"}
+    support = {k for k in range(2**L) if pv[k] >= 1e-9}
+    counts = dict(res["results"])
+    gens, keys = res["gens"], res["keys"]
+    probs = []
+    worst = 0.0
+    # (c) totals, and the histogram is the histogram of the keys the shots returned
+    if sum(counts.values()) != shots:
+        probs.append(f"counts sum to {sum(counts.values())}, {shots} shots were asked")
+    if res["shots_after"] != shots:
+        probs.append(f"sim_params.shots is {res['shots_after']} after the run, was {shots}")
+    if [c["shots"] for c in res["ms_calls"]] != [shots]:
+        probs.append(f"measure_shots calls {res['ms_calls']}, expected one call with shots={shots}")
+    if len(keys) != shots or len(gens) != shots:
+        probs.append(f"{len(keys)} single shots were taken with {len(gens)} generators, {shots} shots were asked")
+    if dict(Counter(keys)) != counts:
+        probs.append(f"returned counts {counts} are not the histogram of the keys the shots returned {dict(Counter(keys))}")
+    if [k for k, _ in res["results"]] != sorted(counts):
+        probs.append("results not sorted by key")
+    # (a) key bit i = outcome of qubit i; keys inside the support of the Statevector distribution
+    for j, (g, k) in enumerate(zip(gens, keys)):
+        want = sum(c << i for i, c in enumerate(g["bits"]))
+        if len(g["bits"]) != L or k != want:
+            probs.append(f"shot {j}: generator outcomes per qubit {g['bits']} but returned key {k} (bit i of the key must be the "
+                         f"outcome of qubit i: {want})")
+            break
+    bad = {k: v for k, v in counts.items() if not (0 <= k < 2**L) or pv[k] < E2E_ZERO}
+    if bad:
+        probs.append(f"keys of Statevector probability 0 were returned: {bad} (probabilities_dict {pd})")
+    exhaustive = set(codes) >= set(range(2**L)) and shots >= 2**L
+    if exhaustive and not probs and set(counts) != support:
+        probs.append(f"forcing every branch returned the keys {sorted(counts)}, the Statevector support is {sorted(support)}")
+    # (b) product of the conditionals handed to `choice` along the branch = Statevector probability of the returned key
+    for j, (g, k) in enumerate(zip(gens, keys)):
+        prod = float(np.prod([p[c] for p, c in zip(g["ps"], g["bits"])]))
+        if 0 <= k < 2**L:
+            worst = max(worst, abs(prod - pv[k]))
+            if abs(prod - pv[k]) > 1e-10:
+                probs.append(f"shot {j}: product of conditionals {prod:.12g} != |<key {k}|U|psi0>|^2 = {pv[k]:.12g} "
+                             f"(outcomes per qubit {g['bits']})")
+                break
+    out = [{"req": None, "impl": None, "kind": "weak-e2e",
+            "oracle": {"ok": not probs, "detail": "; ".join(probs[:3]) or f"counts={counts} worst={worst:.2e}"},
+            "sig": f"weak-e2e:{L}:{shots}:{len(spec)}:{sorted(support)}:{init}", "nontrivial": L > 1 and len(support) < 2**L,
+            "input": inp}]
+    # hypotheses of `shot_distribution` on the chain handed to measure_shots: right-canonical from site 1 on, norm 1, and it
+    # represents U_c psi0 (fidelity with the Statevector; `MPS.to_vec` index = sum_i s_i 2^i)
+    ts = res["tensors"]
+    if ts is not None:
+        for jsite, t in enumerate(ts):
+            t = np.asarray(t)
+            if jsite == 0:
+                dev = abs(float(np.sum(np.abs(t) ** 2)) - 1.0)
+            else:
+                g_ = np.einsum("sab,scb->ac", t, t.conj())
+                dev = float(np.max(np.abs(g_ - np.eye(g_.shape[0]))))
+            E2E["n"] += 1
+            E2E["worst"] = max(E2E["worst"], dev)
+            if not dev <= 1e-9:
+                E2E["bad"] += 1
+                E2E["detail"] = f"L={L} circuit {spec}: site {jsite} of the chain handed to measure_shots deviates by {dev:.3e}"
+        vec = MPS(L, tensors=[np.array(t) for t in ts], physical_dimensions=[2] * L).to_vec()
+        fid = abs(np.vdot(np.asarray(sv.data), vec)) ** 2
+        E2E["fid_n"] += 1
+        E2E["fid_worst"] = max(E2E["fid_worst"], abs(fid - 1.0))
+        if not abs(fid - 1.0) <= 1e-9:
+            E2E["fid_bad"] += 1
+            E2E["fid_detail"] = f"L={L} circuit {spec}: |<U_c psi0|chain>|^2 = {fid:.12g}"
+        # trace tie: the model's loop on the SAME final tensors, along every branch the real shots walked
+        seg = " | ".join(ship_site(t) for t in ts)
+        seen = set()
+        for g, k in zip(gens, keys):
+            bits = tuple(g["bits"])
+            if bits in seen or len(bits) != L:
+                continue
+            seen.add(bits)
+            forced_p = [p[c] for p, c in zip(g["ps"], bits)]
+            edge = any(q < 1e-9 for q in forced_p) or any(E2E_ZERO / 100 < min(p) < 1e-9 for p in g["ps"])
+            out.append({"req": f"shot Z | {' '.join(map(str, bits))} | {seg}",
+                        "impl": " ".join(f"{ib.fmt(p[0])} {ib.fmt(p[1])}" for p in g["ps"]) + f" ; done {k}",
+                        "edge": bool(edge), "kind": "weak-e2e-shot", "oracle": None,
+                        "sig": f"weak-e2e-shot:{L}:{len(spec)}:{k}:{inp.get('sub', 0) % 97}", "nontrivial": L > 1})
+    return out
+
+
+E2E_FIXED = [
+    # asymmetric circuits: the bit order of the key matters
+    {"L": 2, "circuit": [["x", [0]]]},
+    {"L": 3, "circuit": [["x", [0]], ["measure_all", []]]},
+    {"L": 4, "circuit": [["x", [0]], ["h", [3]]]},
+    {"L": 3, "circuit": [["h", [0]], ["cx", [0, 1]], ["x", [2]], ["barrier", []], ["z", [0]]]},
+    {"L": 4, "circuit": [["x", [1]], ["cx", [1, 2]], ["ry", [0], 0.7]], "basis_state": "0001"},
+]
+
+
+def gen_weak_e2e(rng, tier):
+    n = {"quick": 8, "thorough": 60, "search": 16}.get(tier, 8)
+    for f in E2E_FIXED:
+        L = f["L"]
+        yield dict(f, kind="weak-e2e", shots=2**L + rng.randrange(0, 3), basis_state=f.get("basis_state"), sub=rng.randrange(1 << 30))
+    yield {"kind": "weak-e2e", "L": 3, "circuit": [["x", [0]], ["h", [1]]], "shots": 1, "codes": [rng.randrange(8)],
+           "basis_state": None, "sub": rng.randrange(1 << 30)}
+    for _ in range(n):
+        L = rng.choice([2, 3, 3, 4, 4, 5])
+        spec = random_circuit(rng, L)
+        if rng.random() < 0.5:   # make it asymmetric under qubit reversal
+            spec.insert(rng.randrange(len(spec) + 1), ["x", [0]])
+        yield {"kind": "weak-e2e", "L": L, "circuit": spec, "shots": 2**L + rng.choice([0, 0, 1, 3]),
+               "basis_state": None if rng.random() < 0.75 else "".join(rng.choice("01") for _ in range(L)),
+               "sub": rng.randrange(1 << 30)}
+
+
 # ------------------------------------------------------------------------------------------------ generation
 def random_circuit(rng, L):
     spec = []
@@ -466,6 +705,7 @@ def gen(rng, tier):
     # one small exhaustive block first: L = 1, 2 with every state kind
     for L, kind in [(1, "random"), (2, "random"), (2, "ghz"), (3, "ghz"), (3, "basis")]:
         yield {"kind": "shot", "L": L, "state": kind, "bases": ["Z", "X", "Y"], "sub": rng.randrange(1 << 30)}
+    yield from gen_weak_e2e(random.Random(f"weak-e2e:{rng.getstate()[1][:4]}"), tier)   # own stream: the other kinds keep their inputs
     for i in range(n_meas):
         L = rng.choice([1, 2, 3, 4, 5])
         site = rng.randrange(L) if rng.random() < 0.9 else rng.choice([-1, L, L + 2])
@@ -527,6 +767,8 @@ def run(inp):
         return run_weak_seq(inp)
     if k == "spec-choice":
         return run_spec_choice(inp)
+    if k == "weak-e2e":
+        return run_weak_e2e(inp)
     raise ValueError(k)
 
 
@@ -555,7 +797,13 @@ def spec():
     return [{"name": "Generator.choice(p=...) never returns an index of probability 0", "ok": SPEC["bad"] == 0, "n": SPEC["n"]},
             {"name": "hypothesis of measure_global: when MPS.measure(site) calls choice, every site left of `site` is left-isometric "
                      "and every site right of it is right-isometric (input right-canonical with centre 0)",
-             "ok": CANON["bad"] == 0, "n": CANON["n"], "worst_residual": CANON["worst"], "detail": CANON["detail"]}]
+             "ok": CANON["bad"] == 0, "n": CANON["n"], "worst_residual": CANON["worst"], "detail": CANON["detail"]},
+            {"name": "hypothesis of shot_distribution / weak_counts: the chain a noise-free weak run hands to measure_shots is "
+                     "right-canonical from site 1 on and has norm 1",
+             "ok": E2E["bad"] == 0, "n": E2E["n"], "worst_residual": E2E["worst"], "detail": E2E["detail"]},
+            {"name": "hypothesis of shot_distribution (Represents): the chain handed to measure_shots is U_c psi0 "
+                     "(fidelity with the qiskit Statevector, to_vec index = sum_i s_i 2^i)",
+             "ok": E2E["fid_bad"] == 0, "n": E2E["fid_n"], "worst_residual": E2E["fid_worst"], "detail": E2E["fid_detail"]}]
 
 
 if __name__ == "__main__":
